@@ -117,7 +117,7 @@ func C11(app string, entry EntryFunc, display bool) func(*hx.Ctx) *hx.Outcome {
 		segs, wire, _ := appStream(c, o, 1)
 		o.ScenHash = gnss.Hash(wire)
 		sink := genSink(t, "out")
-		src := &env.Source{T: t, Data: wire, MaxChunk: []int{1, 16, 512, 4096}[t.S(4)], DataWithErr: t.SBool(1, 3)}
+		src := &env.Source{T: t, Data: wire, MaxChunk: []int{1, 16, 512, 4096}[t.S(4)], DataWithErr: t.SBool(1, 3), PauseOneIn: []int{0, 0, 0, 3, 40}[t.S(5)]}
 		cfg := jsonconfig.Config{}
 		if !display {
 			// rtcmfilter: every configuration of its optional logs
@@ -212,7 +212,7 @@ func C10(entry EntryFunc) func(*hx.Ctx) *hx.Outcome {
 		o.ScenHash = gnss.Hash(wire) ^ uint64(sw)
 		o.Probe(fmt.Sprintf("config:display=%v,record=%v", cfg.DisplayMessages, cfg.RecordMessages))
 		sink := genSink(t, "out")
-		src := &env.Source{T: t, Data: wire, MaxChunk: []int{1, 16, 512, 4096}[t.S(4)], ZeroReads: t.SBool(1, 5), DataWithErr: t.SBool(1, 3)}
+		src := &env.Source{T: t, Data: wire, MaxChunk: []int{1, 16, 512, 4096}[t.S(4)], ZeroReads: t.SBool(1, 5), DataWithErr: t.SBool(1, 3), PauseOneIn: []int{0, 0, 0, 3, 40}[t.S(5)]}
 		if c.Detail {
 			o.Sample = map[string]any{"segments": gnss.Describe(segs), "wire_len": len(wire), "wire_hex": hexShort(wire), "display": cfg.DisplayMessages, "record": cfg.RecordMessages,
 				"clean_stream": clean, "sink_latency": sink.Latency.String(), "sink_extra_yields": sink.ExtraYields, "max_chunk": src.MaxChunk}
@@ -408,7 +408,7 @@ func C16(start func(cfg *lcfg.Config)) func(*hx.Ctx) *hx.Outcome {
 		dir := c.TempDir()
 		cfg := &lcfg.Config{LogEvents: t.SBool(1, 3), MessageLogDirectory: filepath.Join(dir, "rtcm"), EventLogDirectory: filepath.Join(dir, "events")}
 		maxChunk := []int{1, 100, 8096, 20000}[t.S(4)]
-		src := &env.Source{T: t, Data: data, MaxChunk: maxChunk, ZeroReads: t.SBool(1, 3)}
+		src := &env.Source{T: t, Data: data, MaxChunk: maxChunk, ZeroReads: t.SBool(1, 3), PauseOneIn: []int{0, 0, 0, 3, 40}[t.S(5)]}
 		sink := genSink(t, "stdout")
 		o.ScenHash = gnss.Hash(data) ^ uint64(maxChunk)
 		if c.Detail {
@@ -420,7 +420,7 @@ func C16(start func(cfg *lcfg.Config)) func(*hx.Ctx) *hx.Outcome {
 		s.SetStarveKey([]string{"main.go:1", "main.go", "main"}[t.D(3)])
 		fineGrained(c, s, o)
 		s.StdinR, s.StdoutW = src, sink
-		s.Budget = 40*(len(data)/maxChunk+len(data)/64+64) + 20000
+		s.Budget = 120*len(data) + 60000 // chunks are mostly a few bytes whatever the maximum; fine-grained runs yield per statement
 		returned := false
 		var atExit []byte
 		nAtExit := 0
